@@ -71,11 +71,13 @@ def reply_corpus(op, tier):
                     k -= len(W.getscript_reply(body, True, b)) - target
                 if len(W.getscript_reply(body, True, b)) == target:
                     out.append(("exact%d+%s" % (target, l), W.getscript_reply(body, True, b)))
+        one_line = set(W.bodies(1))
         for body in bl:
             for lit in (True, False):
                 if not lit and not refms.can_quote(body):
                     continue
-                for l, b, code, _r, _t in few:
+                # (two-line bodies of the thorough tier meet three status wordings, everything else all of them)
+                for l, b, code, _r, _t in (few if (tier == "quick" or body in one_line or len(body) > 60) else few[:3]):
                     if code != b"OK":
                         continue
                     out.append(("body%s+%s" % ("lit" if lit else "q", l), W.getscript_reply(body, lit, b)))
@@ -225,10 +227,11 @@ def run(tier, seed):
             tasks.append((op, tier, lo, lo + step))
     # the same replies with a client created with debug=True (its trace must not change what is read), non-ASCII replies only matter there
     for op in ("listscripts", "getscript", "havespace"):
-        total = len(reply_corpus(op, tier))
+        dtier = "quick" if op == "getscript" else tier  # the debug trace is exercised on the quick corpus of bodies in both tiers
+        total = len(reply_corpus(op, dtier))
         step = max(1, (total + 3) // 4)
         for lo in range(0, total, step):
-            tasks.append((op, tier, lo, lo + step, True))
+            tasks.append((op, dtier, lo, lo + step, True))
     tasks.append(("connect", tier, 0, 0))
     tasks.append(("rename-emulated", tier, 0, 0))
     results = pool.run_tasks("checks.c05:op_task", tasks)
